@@ -1,6 +1,7 @@
 mod eval;
 mod mir;
 mod model;
+mod nomx;
 mod quotex;
 mod report;
 mod rules;
